@@ -4,7 +4,7 @@ from .. import common, gen, mergecorr, ser
 
 TRUSTED_COMMON = [
     'Coq 8.16.1 kernel and vm_compute (used for FactsOk lemmas, finite sweeps, refutation witnesses and for evaluating the model in the generated case files); no native_compute',
-    'tools/extract_facts.py (T1 extractor for constants/tables), tools/translate_src.py (T1b Python-ast -> Gallina translator for the pure decision functions and the field-mutating prefixes of _replace_self / _replace_other / _propagate_implicit_values; its output is proved equal to the model in Proofs/SrcOk.v), tools/translate_merge.py (T1c: control skeletons of the four on_merge_impl methods over the primitives of the model, API calls mapped by name; proved equal to the rules of Model/Merge.v in Proofs/SrcMergeOk.v), tools/translate_eval.py (T1d: the control skeleton of EvalContext.evaluate_node over the primitives of Model/Eval.v; proved equal to eval_node in Proofs/SrcEvalOk.v), vlib/ser.py (Python node -> Coq term printer, string interning), vlib/gen.py (generators)',
+    'tools/extract_facts.py (T1 extractor for constants/tables), tools/translate_src.py (T1b Python-ast -> Gallina translator for the pure decision functions and the field-mutating prefixes of _replace_self / _replace_other / _propagate_implicit_values; its output is proved equal to the model in Proofs/SrcOk.v), tools/translate_merge.py (T1c: control skeletons of the four on_merge_impl methods over the primitives of the model, API calls mapped by name; proved equal to the rules of Model/Merge.v in Proofs/SrcMergeOk.v), tools/translate_eval.py (T1d: the control skeletons of EvalContext.evaluate_node / evaluate and Config.check_missing / __init__ over the primitives of Model/Eval.v; proved equal to eval_node / check_missing / config in Proofs/SrcEvalOk.v), vlib/ser.py (Python node -> Coq term printer, string interning), vlib/gen.py (generators)',
     'the hand-written Gallina model is tied to /repo by correspondence (sampled for tree recursion, exhaustive for finite flag logic), not by translation',
     'modelled, not verified: PyYAML (scanner/parser/composer/resolver/emitter), pickle/copy, CPython semantics, error message text',
 ]
@@ -13,7 +13,7 @@ _build_cache = {}
 # properties whose theorems unfold the translated flag functions / the translated merge rules
 SRC_PROPS = {'C01', 'C02', 'C03', 'C04', 'C05', 'C06', 'C07', 'C08', 'C13', 'C15', 'C16', 'C17', 'C18', 'C19'}
 SRCM_PROPS = {'C02', 'C03', 'C04', 'C05', 'C06', 'C07', 'C08', 'C13', 'C15', 'C16'}
-SRCE_PROPS = {'C07', 'C09', 'C10', 'C11'}
+SRCE_PROPS = {'C07', 'C09', 'C10', 'C11', 'C14'}
 
 
 def build(rep):
@@ -37,10 +37,10 @@ def build(rep):
         rep.oblige('coq: Proofs.SrcMergeOk compiles (the translated skeletons are proved equal to leaf_merge / comp_merge (merge_step, prune) / func_merge / list_merge of Model/Merge.v)', mok,
                    '' if mok else json.dumps([e for e in b['errors'] if e['file'].startswith('Proofs/SrcMergeOk') or e['file'].startswith('Gen/SrcMerge')][:2]))
     if rep.pid in SRCE_PROPS:
-        rep.oblige('T1d: Gen/SrcEval.v - the control skeleton of EvalContext.evaluate_node translated from the Python source over the primitives of Model/Eval.v (fail-closed translator)',
+        rep.oblige('T1d: Gen/SrcEval.v - the control skeletons of EvalContext.evaluate_node, EvalContext.evaluate, Config.check_missing and Config.__init__ translated from the Python source over the primitives of Model/Eval.v (fail-closed translator)',
                    b['srce_ok'], b['srce_log'][-500:] if not b['srce_ok'] else '')
         eok = common.vo_ok('Proofs/SrcEvalOk')
-        rep.oblige('coq: Proofs.SrcEvalOk compiles (the translated skeleton is proved equal to Model.Eval.eval_node: safety check before memo lookup before entering the node)', eok,
+        rep.oblige('coq: Proofs.SrcEvalOk compiles (the translated skeletons are proved equal to Model.Eval.eval_node - safety check before memo lookup before entering the node - and to check_missing / config: the scan of the caller\'s tree, then the copy, then the evaluation of the copy by a fresh context)', eok,
                    '' if eok else json.dumps([e for e in b['errors'] if e['file'].startswith('Proofs/SrcEvalOk') or e['file'].startswith('Gen/SrcEval')][:2]))
     rep.checker_cmds.append(f'tools/extract_facts.py coq/Gen/Facts.v && tools/translate_src.py coq/Gen/Src.v && tools/translate_merge.py coq/Gen/SrcMerge.v && tools/translate_eval.py coq/Gen/SrcEval.v && make -k -j{common.NCPU} -C coq (full .vo build)')
     return b
